@@ -156,6 +156,12 @@ def rows_harness(name):
         out = {"log_prob": m.log_prob(x, context=c)}
         if isinstance(m, Flow):
             out["transform_to_noise"] = m.transform_to_noise(x, context=c)
+        # sampling: only the frame is claimed here (no write to the context argument or to the model); one draw per row exercises the
+        # path on which repeat_rows returns a view of the caller's context
+        h.sampled = {}
+        if not (isinstance(m, Flow) and not with_ctx):
+            for k in (1, 2):
+                h.sampled[k] = m.sample(k, context=c)
         return out
 
     def post(h, ctx, outs):
@@ -180,8 +186,11 @@ def rows_harness(name):
         rows = torch.cat([m.log_prob(x[i:i + 1], context=c[i:i + 1] if c is not None else None) for i in range(B)])
         sd = {k: v.clone() for k, v in m.state_dict().items()}; xb = x.clone()
         m.log_prob(x, context=c)
+        cb = c.clone() if c is not None else None
+        if not (isinstance(m, Flow) and not with_ctx):
+            for k in (1, 2): m.sample(k, context=c)
         return {"C12.row-independent.log_prob": bool(torch.allclose(rows, lp, atol=1e-9)),
-                "C13.no-write": bool(torch.equal(xb, x)) and all(torch.equal(sd[k], v) for k, v in m.state_dict().items())}
+                "C13.no-write": bool(torch.equal(xb, x)) and (c is None or bool(torch.equal(cb, c))) and all(torch.equal(sd[k], v) for k, v in m.state_dict().items())}
     hn = Harness(f"rows_{name}[]", run, post, native_call=native_call, native_clauses=native_clauses,
                  sample=lambda h, rng: {"x": rng.normal(size=(B, 2)), "context": rng.normal(size=(B, 2 if name == "ConditionalFlow" else 4))}, functions=[Flow._log_prob, Flow.transform_to_noise])
     hn.native_float32 = False
